@@ -6,10 +6,14 @@ src, sid, verdict = sys.argv[1], sys.argv[2], sys.argv[3]
 caught = sys.argv[4:]
 dst = os.path.join("/verif/seeded", sid)
 os.makedirs(dst, exist_ok=True)
-for fn in os.listdir(src):
-    p = os.path.join(src, fn)
-    if os.path.isfile(p) and os.path.getsize(p) < 200_000 and not fn.endswith((".log", "_bin")) and fn != "meta.json":
-        shutil.copy(p, os.path.join(dst, fn))
+for root, dirs, files in os.walk(src):
+    dirs[:] = [d for d in dirs if d not in ("target", ".git")]
+    rel = os.path.relpath(root, src)
+    for fn in files:
+        p = os.path.join(root, fn)
+        if os.path.getsize(p) < 200_000 and not fn.endswith((".log", "_bin", ".lock")) and not (rel == "." and fn == "meta.json"):
+            os.makedirs(os.path.join(dst, rel), exist_ok=True)
+            shutil.copy(p, os.path.join(dst, rel, fn))
 am = {}
 if os.path.exists(os.path.join(src, "meta.json")):
     am = json.load(open(os.path.join(src, "meta.json")))
@@ -25,6 +29,9 @@ meta = {
                "`cargo test --workspace --no-fail-fast --offline` passes with the patch; demo.sh passes without it",
         "verdict": verdict,
     },
+    "demonstration": "the author's demo: in a worktree of /repo with the patch applied, copy this directory to "
+                     "<worktree>/_out/<mN>/ and run `bash _out/<mN>/demo.sh` from the worktree root (exit 0 = property "
+                     "holds for the demonstration input, non-zero = violated)",
     "checked_with": "tools/muttest.py <patch> <checks> (quick tier, private mount namespace)",
     "caught_by": caught,
 }
